@@ -22,6 +22,7 @@ import ast
 from ..engine.model import AnalysisError, src, walk_own
 from ..engine import npstub
 from ..engine.flow import Flow
+from ..engine.inline import Inliner
 from ..engine.typestate import FactDomain, EventDomain
 from .armstate import ArmChecker, ARM, self_field, POSE, HELPERS
 
@@ -136,7 +137,8 @@ def r053(model, rep, ck):
     if len(calls) != 1:
         raise AnalysisError('Arm.FK: expected one FKinSpace call, found %d' % len(calls))
     c = calls[0]
-    a = [src(x) for x in c.args]
+    il = Inliner(fk)
+    a = [il.text(x) for x in c.args]
     ok = len(a) == 3 and a[0] in ('self._end_effector_home.gTM()', 'self._end_effector_home.TM') and a[1] == 'self.screw_list' and a[2] == theta
     rep.ob('R05.3', fk, src(c), ok, 'FK must evaluate FKinSpace(home tool pose, space screws, theta); got (%s)' % ', '.join(a), line=c.lineno)
     # clamp dominance: path-sensitive - at the FKinSpace call either protect is truthy or theta was reassigned from thetaProtector
@@ -162,14 +164,8 @@ def r053(model, rep, ck):
     rep.ob('R05.3', fk, 'self._theta stored from the evaluated vector', ok, 'FK does not store the joint vector it evaluated')
     ok2 = False
     if len(st_pose) == 1:
-        v = st_pose[0].value
-        assigns = {}
-        for n in walk_own(fk.node):
-            if isinstance(n, ast.Assign) and isinstance(n.targets[0], ast.Name):
-                assigns[n.targets[0].id] = n.value
-        if isinstance(v, ast.Name) and v.id in assigns:
-            v = assigns[v.id]
-        ok2 = any(x is c for x in ast.walk(v))
+        got = il.text(st_pose[0].value)
+        ok2 = got in ('tm(%s)' % il.text(c), il.text(c), 'tm(%s).copy()' % il.text(c))
     rep.ob('R05.3', fk, 'stored tool pose is the FKinSpace result', ok2, 'the pose FK stores is not the product-of-exponentials result')
     # the clamp itself: theta[where(theta < mins)] = mins[where(theta < mins)], same for > maxs; returns theta
     tp = arm.methods.get('thetaProtector')
@@ -326,7 +322,8 @@ def r055(model, rep, ck):
     calls = [c for c in walk_own(mv.node) if isinstance(c, ast.Call) and isinstance(c.func, ast.Attribute) and c.func.attr == 'initialize']
     ok = len(calls) == 1 and len(calls[0].args) >= 3
     if ok:
-        a = [src(x) for x in calls[0].args]
+        il = Inliner(mv)
+        a = [il.text(x) for x in calls[0].args]
         ok = a[0] == mv.params[1] and a[1] in ('self.original_screw_list.copy()', 'np.copy(self.original_screw_list)') \
             and a[2] == 'self._end_effector_home_local'
         rep.ob('R05.5', mv, src(calls[0])[:110], ok,
